@@ -145,6 +145,9 @@ MUTANTS = {
     "c17-3d-exact-equality-cases": ("C17", "EasyFEA/Models/_phasefield.py",
         "            case2 = g_neq_0 & (arg_np <= -1 + 1e-10)\n",
         "            case2 = g_neq_0 & (arg_np == -1)\n"),
+    "c18-neohookean-energy-not-the-potential-of-its-stress": ("C18", "EasyFEA/Models/HyperElastic/_laws.py",
+        "        W = K * (I1 / I3 ** (1 / 3) - 3)\n\n        return W\n",
+        "        W = K * (I1 / I3 ** (1 / 3) - 3) + 0.02 * K * (I1 - 3) ** 2\n\n        return W\n"),
     "c18-gonzalez-tangent-unscaled": ("C18", "EasyFEA/Simulations/_hyperelastic.py",
         "                F_e -= np.einsum(\n                    \"eij,ej->ei\",\n                    M_e,\n",
         "                F_e -= 0.5 * np.einsum(\n                    \"eij,ej->ei\",\n                    M_e,\n"),
